@@ -91,7 +91,8 @@ def run(tier):
         res = r["result"]
         if res["kind"] != sem["err"]["kind"] or json.dumps(res["out"], sort_keys=True) != json.dumps(sem["out"], sort_keys=True) \
                 or (sem["err"]["kind"] and sem["err"]["line"] and res["line"] != sem["err"]["line"]):
-            verdict.disagree(dict(base, what="program_behaviour_changed"), dict(case, sem={"out": sem["out"], "err": sem["err"]}))
+            verdict.disagree(dict(base, what="program_behaviour_changed", after_evaluate=any(c.startswith("eval_") for c in row["cmds"])),
+                             dict(case, sem={"out": sem["out"], "err": sem["err"]}))
             continue
         got = [s["line"] for s in r["stops"]]
         stops_total += len(got)
@@ -118,8 +119,10 @@ def run(tier):
                 exp = {v["n"]: cp2s(v["v"]) for v in ms["vs"]}
                 obs = {v["n"].lstrip("."): v["v"] for v in rs["vars"]}
                 if rs["frames"] > 1 and exp != obs:
-                    verdict.disagree(dict(base, what="variables_at_stop"),
-                                     dict(case, stop=si + 1, line=ms["line"], expected=exp, shown=obs))
+                    differing = sorted(n for n in set(exp) | set(obs) if exp.get(n) != obs.get(n))
+                    for name in differing:      # one disagreement per variable, so each is classified on its own
+                        verdict.disagree(dict(base, what="variables_at_stop", vars=name),
+                                         dict(case, stop=si + 1, line=ms["line"], expected=exp, shown=obs))
                     break
             continue
         d = dev_by.get(k)
